@@ -27,6 +27,10 @@ def _(self):
 
 @assumed("cascade.executor.executor:Executor.to_controller")
 def _(self, m):
+    # hands m to the acknowledged sender (C06); ghost log entries: the message itself, and whether it is a failure / exit notice
+    logs("to_controller", m)
+    logs("to_controller_is_failure", isinstance(m, ExecutorFailure))
+    logs("to_controller_is_exit", isinstance(m, ExecutorExit))
     modifies("events", "step_time_ms")
 
 
@@ -39,4 +43,144 @@ def _(self):
     raises(ValueError, when=dead_worker or dead_helper, tag="dead-child-is-reported", top=True)
     invariant(0, forall(WorkerId, lambda w: implies(w in loop0_seen, self.workers[w] is not None
                                                    and not bad(typed(self.workers[w], ProcHandle).exitcode))))
+    logs("healthcheck")   # ghost marker appended at call sites (call presence in recv_loop); the function itself is not asked to log it
     modifies("events", "step_time_ms", "log_time_ms")
+
+
+# ---- worker side: a task that raises is REPORTED (TaskFailure to the executor), never swallowed, never propagated into the worker loop ------
+treat_as_record("cascade.executor.runner.runner:ExecutionContext")
+
+
+@assumed("cascade.executor.runner.packages:PackagesEnv.extend")
+def _(self, packages):
+    # installs the task's extra packages: may fail like any other step of the sequence
+    may_raise(Exception, when=True)
+    modifies()
+
+
+@assumed("cascade.executor.runner.entrypoint:RunnerContext.project")
+def _(self, taskSequence):
+    # the per-sequence view of the job (tasks, parameter sources): a failure here (unknown task ..) is an exception like any other
+    may_raise(Exception, when=True)
+    modifies()
+
+
+@assumed("cascade.executor.runner.runner:run")
+def _(taskId, executionContext, memory):
+    # running a task: may raise whatever the task body or the output handling raises (C10 has its contract); logged for call-presence
+    # (ONE log entry stands for the whole run of the task: what happens inside is C10's business)
+    logs("run", taskId)
+    may_raise(Exception, when=True)
+    modifies()
+
+
+@assumed("cascade.executor.runner.memory:Memory.flush")
+def _(self):
+    logs("flush")
+    may_raise(Exception, when=True)
+    modifies()
+
+
+@assumed("cascade.executor.comms:callback")
+def _(address, msg):
+    logs("callback", address, msg)
+    modifies()
+
+
+@contract("cascade.executor.runner.entrypoint:execute_sequence")
+def _(taskSequence, memory, pckg, runnerContext):
+    n0 = old(events_len())
+    last = event(events_len() - 1)
+    failed = ev_name(last) == "callback"
+    # "if a task raises ... the run still ends ... with an error": whatever goes wrong while the sequence runs, execute_sequence itself
+    # returns normally (the worker loop survives) and the LAST thing it does is then to report a TaskFailure for this worker to the executor;
+    # a sequence that ran through ends with memory.flush() and reports no failure
+    option(exceptions_top=True)   # no may_raise clause: ANY exception escaping execute_sequence is a failed top-level obligation
+    ensures(forall(int, lambda j: implies(n0 <= j and j < events_len() - 1, ev_name(event(j)) != "callback")), tag="at-most-one-report-and-last", top=True)
+    ensures(implies(failed, ev_argc(last, 2) and same(ev_arg(last, 0), runnerContext.callback)
+                    and isinstance(ev_arg(last, 1), TaskFailure) and typed(ev_arg(last, 1), TaskFailure).worker == taskSequence.worker),
+            tag="failure-is-reported-to-the-executor-for-this-worker", top=True)
+    # the report names the task in hand: with R tasks started (R "run" entries), it is the R-th one (it raised, or flushing after it did) or
+    # the (R+1)-th one (its preparation raised); None only when nothing was started
+    flushed = events_len() - 2 >= n0 and ev_name(event(events_len() - 2)) == "flush"
+    R = events_len() - 1 - n0 - (1 if flushed else 0)
+    named = typed(ev_arg(last, 1), TaskFailure).task
+    ensures(implies(failed and R == 0, named is None or (len(taskSequence.tasks) > 0 and same(named, taskSequence.tasks[0]))), tag="report-names-the-task-in-hand-none-started", top=True)
+    ensures(implies(failed and R >= 1, R <= len(taskSequence.tasks) and (same(named, taskSequence.tasks[R - 1]) or (R < len(taskSequence.tasks) and same(named, taskSequence.tasks[R])))),
+            tag="report-names-the-task-in-hand", top=True)
+    ensures(implies(failed, typed(ev_arg(last, 1), TaskFailure).task is None
+                    or exists(int, lambda i: 0 <= i and i < len(taskSequence.tasks) and taskSequence.tasks[i] == typed(ev_arg(last, 1), TaskFailure).task)),
+            tag="report-names-a-task-of-the-sequence", top=True)
+    # no failure reported => every task of the sequence was run, in order, and the memory was flushed afterwards
+    ensures(implies(not failed, events_len() >= n0 + 1 and ev_name(last) == "flush"), tag="success-ends-with-flush", top=True)
+    invariant(0, events_len() == n0 + loop0_index and forall(int, lambda j: implies(n0 <= j and j < events_len(), ev_name(event(j)) == "run")))
+    invariant(0, implies(loop0_index == 0, taskId is None))
+    invariant(0, implies(loop0_index > 0, events_len() > n0 and same(event(events_len() - 1), ev("run", taskId))
+                         and same(taskId, taskSequence.tasks[loop0_index - 1])))
+    modifies("events")
+
+
+# ---- executor side: terminate() stops every child it started and never raises ---------------------------------------------------------
+stub_class("ProcHandle", exitcode="int | None", pid="int")
+external_returns(is_alive="bool")
+
+
+pure_function("cascade.executor.runner.entrypoint:worker_address", returns="str", module="cascade.executor.executor")   # the ipc address derived from a worker id (f-string over repr)
+
+
+@assumed("cascade.shm.client:shutdown")
+def _():
+    logs("shm_shutdown")
+    may_raise(Exception, when=True)
+    modifies()
+
+
+@contract("cascade.executor.executor:Executor.terminate")
+def _(self):
+    n0 = old(events_len())
+    option(exceptions_top=True)   # "we try catch everything since we dont want to leave any process dangling": terminate never raises
+    # "the executor processes exit and leave no child processes ... behind": every worker process that was started is told to shut down
+    # (WorkerShutdown on its own address) - one message per started worker, none for a worker never started; a second call does nothing
+    ensures(implies(old(self.terminating), events_len() == n0), tag="second-call-is-a-no-op")
+    ensures(self.terminating, tag="marks-terminating")
+    ensures(implies(not old(self.terminating),
+                    forall(WorkerId, lambda w: implies(w in self.workers and self.workers[w] is not None,
+                                                       logged(ev("callback", worker_address(w), WorkerShutdown()))))),
+            tag="every-started-worker-is-told-to-shut-down", top=True)
+    # ... and the shared-memory server, if it is still alive, is asked to shut down ("leave no ... shared-memory segments behind")
+    observes(shm_alive="is_alive")
+    ensures(implies(not old(self.terminating) and shm_alive, logged(ev("shm_shutdown"))), tag="live-shm-server-is-shut-down", top=True)
+    invariant(0, events_len() >= n0 and self.terminating
+              and forall(WorkerId, lambda w: implies(w in loop0_seen and self.workers[w] is not None,
+                                                     logged(ev("callback", worker_address(w), WorkerShutdown())))))
+    modifies("terminating", "events")
+
+
+# ---- executor side: the receive loop never stops silently ------------------------------------------------------------------------------
+field_types("cascade.executor.executor:Executor", mlistener="Listener", sender="ReliableSender", datasets="set[DatasetId]", daddress="str")
+external_class("cascade.executor.comms:Listener")
+external_class("cascade.executor.comms:ReliableSender")
+external_returns(recv_messages="list[Message]")
+external_raises(recv_messages=["ValueError"], maybe_retry=["ValueError"])
+
+
+@contract("cascade.executor.executor:Executor.recv_loop")
+def _(self):
+    told = logged(ev("to_controller_is_failure", True)) or logged(ev("to_controller_is_exit", True))
+    # "if ... a worker process, the host's data server or its shared-memory server dies while the executor that owns it is alive, the
+    #  controller's run still ends": the loop ends only by terminating, and it never terminates without having told the controller -
+    #  ExecutorExit on an orderly shutdown, ExecutorFailure for ANY exception raised while serving (a dead child found by healthcheck,
+    #  a retry budget exhausted, a malformed message) - before it stops its children
+    option(exceptions_top=True)
+    ensures(self.terminating, tag="loop-ends-only-by-terminating")
+    ensures(implies(not old(self.terminating), told), tag="controller-is-told-before-the-executor-stops", top=True)
+    invariant(0, implies(self.terminating and not old(self.terminating), told))
+    # every turn of the loop that did not end in the failure handler has run the health check and the retry pass, in this order, last
+    invariant(0, self.terminating or events_len() == old(events_len())
+              or (events_len() >= 2 and ev_name(event(events_len() - 1)) == "maybe_retry" and ev_name(event(events_len() - 2)) == "healthcheck"),
+              tag="every-turn-checks-health-then-retries")
+    invariant(1, implies(self.terminating and not old(self.terminating), told) and not self.terminating)
+    invariant(2, not self.terminating)
+    invariant(3, not self.terminating)
+    invariant(4, not self.terminating)
+    modifies("terminating", "events", "step_time_ms", "log_time_ms", self.datasets)
